@@ -438,7 +438,7 @@ class SampleRuleLayout(_SampleRule):
         yield "declared_out_axis_is_lane_axis", ax == pos
 
 
-@contract("genjax.pjax:VmapBatchHandler._handle_modular_vmap", ["C13", "C07", "C08"])
+@contract("genjax.pjax:VmapBatchHandler._handle_modular_vmap", ["C13", "C07", "C08", "C11"])
 class SampleRuleHistory(_NoReplay):
     """history: the SAME handler fires several times with identical shapes (a kept function whose staged equation - and
     with it this handler - is reused across calls).  Every firing binds a FRESH site (create_sample_primitive on the
@@ -491,7 +491,7 @@ class SampleRuleHistory(_NoReplay):
         yield "each_firing_returns_its_own_sites_result", [o[0][0][0] for o in outs] == ["site-1-result", "site-2-result", "site-3-result"]
 
 
-@contract("genjax.pjax:LogDensityVmapHandler.create_batch_rule", ["C08"])
+@contract("genjax.pjax:LogDensityVmapHandler.create_batch_rule", ["C08", "C13"])
 class LogDensityRule(_NoReplay):
     """density sites are vectorised as jax.vmap of the density with the site's own batch axes (args and,
     with keyword arguments, the (args, kwargs) pair); output batched iff some input is"""
